@@ -2668,6 +2668,22 @@ def make_ext_modules(I):
         E["re"][n] = int(_b.getattr(_re, n))
     E["warnings"] = {"warn": bi("warnings.warn", lambda I, st, a, k: iter([(st, None)]))}
 
+    # os.path: pure string functions on CONCRETE posix paths only (no file-system access is modelled)
+    import posixpath as _pp
+
+    def _ospath(fname):
+        fn = _b.getattr(_pp, fname)
+
+        def call(I, st, a, k):
+            if k or not a or not all(isinstance(x, str) for x in a):
+                raise Unsupported("os.path.%s on non-concrete-string arguments" % fname)
+            yield st, fn(*a)
+
+        return bi("os.path." + fname, call)
+
+    E["os"] = {"sep": "/"}
+    E["os.path"] = {n: _ospath(n) for n in ("basename", "dirname", "join", "splitext")}
+
     from . import npmodel, bytesmodel
 
     E["struct"] = bytesmodel.make_struct(I)
